@@ -224,7 +224,9 @@ fn rayon_case(rng: &mut Rng, out: &mut Outcome) -> Result<(), String> {
     let prefill = |m: &UMap, pre: &mut BTreeMap<u64, u64>, rng: &mut Rng| {
         let g = m.guard();
         for _ in 0..rng.below(20) {
-            let k = rng.below(universe) + 1000;
+            // half of the pre-existing keys are also mentioned by the parallel items (their old
+            // value 7 is never among the supplied ones and must be replaced), half are not
+            let k = if rng.chance(1, 2) { rng.below(universe) } else { rng.below(universe) + 1000 };
             m.insert(k, 7, &g);
             pre.insert(k, 7);
         }
